@@ -87,6 +87,24 @@ func (c *ctx) violate(key, what, detail string) {
 	}
 }
 
+// note records one execution that has no model line (an end-to-end run judged by direct
+// oracles only); it counts towards evaluations and the samples.
+func (c *ctx) note(nontrivial bool, desc string) {
+	c.n++
+	if !c.seen[desc] {
+		c.seen[desc] = true
+		if nontrivial {
+			c.nontrivial++
+		}
+	}
+	if len(c.sample) < 6 && (c.n%17 == 1) {
+		if len(desc) > 300 {
+			desc = desc[:300] + "..."
+		}
+		c.sample = append(c.sample, desc)
+	}
+}
+
 func hx(b []byte) string {
 	if len(b) == 0 {
 		return "-"
